@@ -978,13 +978,18 @@ fn body(h: &Hist, rec: &mut Rec) -> CaseResult {
 
 // ---------------------------------------------------------------------------------------------
 // sub-property `client_clear`: the `clear` operation, through the only public route
-// (`CachingClient::{lookup, clear_cache, clear_cache_query}`; default `TtlConfig`)
+// (`CachingClient::{lookup, clear_cache, clear_cache_query}`; default `TtlConfig`), and the
+// client's own TTL handling for aliased answers (CNAME chain + target records in one response,
+// `preserve_intermediates` on and off)
 
 #[derive(Clone, Debug, Serialize, Deserialize)]
 enum Upstream {
     /// answer records of the queried type at the query name (TTLs), optional authority NS TTL,
     /// optional additional A TTL
     Answer { ttls: Vec<u32>, ns: Option<u32>, glue: Option<u32> },
+    /// the query name is an alias: a chain of 1..2 CNAMEs (TTLs `cnames`) in chained order and
+    /// the target's records of the queried type (TTLs `ttls`), all in one response
+    Alias { cnames: Vec<u32>, ttls: Vec<u32> },
     /// NXDOMAIN / NODATA with SOA (ttl, minimum) or without
     Negative { nx: bool, soa: Option<(u32, u32)> },
     ServFail,
@@ -1004,11 +1009,15 @@ struct CHist {
     qa: TypeK,
     qb: TypeK,
     ops: Vec<(Step, COp)>,
+    /// CachingClient's `preserve_intermediates`
+    #[serde(default)]
+    preserve: bool,
 }
 
 fn upstream() -> impl Strategy<Value = Upstream> {
     prop_oneof![
         6 => (vec(ttl(), 1..=3), opt_ttl(), opt_ttl()).prop_map(|(ttls, ns, glue)| Upstream::Answer { ttls, ns, glue }),
+        3 => (vec(ttl(), 1..=2), vec(ttl(), 1..=2)).prop_map(|(cnames, ttls)| Upstream::Alias { cnames, ttls }),
         3 => (any::<bool>(), prop_oneof![1 => Just(None), 4 => (ttl(), ttl()).prop_map(Some)]).prop_map(|(nx, soa)| Upstream::Negative { nx, soa }),
         1 => Just(Upstream::ServFail),
         1 => Just(Upstream::Timeout),
@@ -1022,7 +1031,7 @@ fn chist(_tier: Tier) -> impl Strategy<Value = CHist> {
         2 => (0u8..3).prop_map(|q| COp::ClearQuery { q }),
     ];
     let qt = prop::sample::select(vec![TypeK::A, TypeK::AAAA, TypeK::TXT, TypeK::MX]);
-    (qt.clone(), qt, vec((step(), cop), 1..=30)).prop_map(|(qa, qb, ops)| CHist { qa, qb, ops })
+    (qt.clone(), qt, vec((step(), cop), 1..=30), any::<bool>()).prop_map(|(qa, qb, ops, preserve)| CHist { qa, qb, ops, preserve })
 }
 
 mod mock {
@@ -1074,7 +1083,8 @@ fn client_body(h: &CHist, rec: &mut Rec) -> CaseResult {
     let cfg = Config::default();
     let _clock = VirtualClock::start(1_700_000_000);
     let up = mock::Scripted::default();
-    let client = CachingClient::new(64, up.clone(), false);
+    let client = CachingClient::new(64, up.clone(), h.preserve);
+    rec.class(if h.preserve { "client/preserve-intermediates" } else { "client/filter-intermediates" });
     let qtypes = [h.qa, h.qb, h.qa];
     let queries = [
         Query::new(name("a.example."), h.qa.rt()),
@@ -1157,6 +1167,20 @@ fn client_body(h: &CHist, rec: &mut Rec) -> CaseResult {
                         }
                         if let Some(t) = glue {
                             m.add_additional(Record::from_rdata(name("ns1.example."), *t, rdata(TypeK::A, 7)));
+                        }
+                        Ok(DnsResponse::from_message(m).map_err(|e| harness(format!("{e}")))?)
+                    }
+                    Upstream::Alias { cnames, ttls } => {
+                        let mut m = Message::response(i as u16, OpCode::Query);
+                        m.add_query(query.clone());
+                        let mut owner = query.name.clone();
+                        for (k, t) in cnames.iter().enumerate() {
+                            let target = name(&format!("alias{k}.target.example."));
+                            m.add_answer(Record::from_rdata(owner, *t, RData::CNAME(CNAME(target.clone()))));
+                            owner = target;
+                        }
+                        for (k, t) in ttls.iter().enumerate() {
+                            m.add_answer(Record::from_rdata(owner.clone(), *t, rdata(qtype, (i * 4 + k) as u8)));
                         }
                         Ok(DnsResponse::from_message(m).map_err(|e| harness(format!("{e}")))?)
                     }
@@ -1301,6 +1325,33 @@ fn client_body(h: &CHist, rec: &mut Rec) -> CaseResult {
                                 cleared: false,
                             });
                         }
+                        Upstream::Alias { cnames, ttls } => {
+                            rec.class("upstream/alias-chain-in-one-response");
+                            // L: the smallest TTL among the CNAMEs and the records of the queried
+                            // type. Which TTL each returned record carries (its own, or the chain's
+                            // minimum) is left open; from here on they only count down.
+                            let typed: Vec<(u16, u32)> = cnames.iter().map(|t| (5u16, *t)).chain(ttls.iter().map(|t| (qtype.code(), *t))).collect();
+                            let life = cref::positive_lifetime(&cfg, qtype.code(), &typed);
+                            let msg = match &result {
+                                Ok(l) => l.message().clone(),
+                                Err(e) => vfail!("client-alias-answer-became-error", "op {i}: lookup(q{s}) with CNAME chain and target records in one upstream response returned {e:?}"),
+                            };
+                            let got = pos_ttls(&msg);
+                            let ceiling = typed.iter().map(|(t, ttl)| cref::clamp_record_ttl(&cfg, *t, *ttl)).max().unwrap_or(0);
+                            vensure!(
+                                got.iter().all(|g| *g as u64 <= ceiling),
+                                "client-alias-ttl-above-every-upstream-ttl",
+                                "op {i}: fresh lookup(q{s}) reports TTLs {got:?}, upstream {typed:?}"
+                            );
+                            model[s] = Some(CEntry {
+                                t_fetch: now_ns,
+                                op_index: i,
+                                stored: got.iter().map(|g| *g as u64).collect(),
+                                positive: Some(msg),
+                                life,
+                                cleared: false,
+                            });
+                        }
                         Upstream::Negative { soa, .. } => {
                             let nttl = soa.map(|(t, m)| cref::rfc2308_negative_ttl(t, m));
                             model[s] = Some(CEntry {
@@ -1346,7 +1397,7 @@ pub fn check() -> Option<Check> {
     Some(Check {
         id: "C15",
         level: "exploration",
-        rule: "histories of <=30 (thorough 40) insert/get operations over 3 queries (2 names x 2 types) with non-decreasing nanosecond times (steps 0, sub-second, 1-5 s, large jumps, and jumps to the model's expiry instant +-{0,1ns,0.5s,1s}); results: positive messages with 0-6 records of the queried type / CNAME / other types spread over answer, authority and additional with independent TTLs (0..11 mostly, 3600+-5, 86400+-5, >1 day, 2^31-1), NoRecordsFound built directly (with/without negative_ttl, SOA, authorities, NS+glue) or through DnsError::from_response (SOA ttl/minimum), transient errors (timeout, io, SERVFAIL, REFUSED, busy, no connections, message); TtlConfig built through its serde form with default and 0-3 per-type tables, each bound unset / 0 / 1-9 / 30-3600 / >= 1 day, min<=max enforced, explicit min=max class. Non-trivial = distinct history AND (re-insert of a key whose entry is live, OR a get within 1 s of the model's expiry instant, OR a record whose own type's bounds clamp differently from the query type's bounds)",
+        rule: "histories of <=30 (thorough 40) insert/get operations over 3 queries (2 names x 2 types) with non-decreasing nanosecond times (steps 0, sub-second, 1-5 s, large jumps, and jumps to the model's expiry instant +-{0,1ns,0.5s,1s}); results: positive messages with 0-6 records of the queried type / CNAME / other types spread over answer, authority and additional with independent TTLs (0..11 mostly, 3600+-5, 86400+-5, >1 day, 2^31-1), NoRecordsFound built directly (with/without negative_ttl, SOA, authorities, NS+glue) or through DnsError::from_response (SOA ttl/minimum), transient errors (timeout, io, SERVFAIL, REFUSED, busy, no connections, message); TtlConfig built through its serde form with default and 0-3 per-type tables, each bound unset / 0 / 1-9 / 30-3600 / >= 1 day, min<=max enforced, explicit min=max class. Non-trivial = distinct history AND (re-insert of a key whose entry is live, OR a get within 1 s of the model's expiry instant, OR a record whose own type's bounds clamp differently from the query type's bounds); client_clear: <=30 lookups/clears through CachingClient (preserve_intermediates on/off) over a scripted upstream answering with direct answers, alias answers (1-2 CNAMEs + target records in one response), negatives, SERVFAIL, timeouts",
         assumptions: vec![
             "virtual clock (interposed clock_gettime) equals the Instant passed to insert/get, as for the real callers which pass Instant::now()",
             "configurations with min > max (after defaults 0 s / 1 day) are outside the domain: the statement's clamp is undefined there (the implementation panics in clamp)",
